@@ -137,35 +137,43 @@ func trieReplay(args []string) error {
 	var mm []mismatch
 	n := 0
 	for ei, e := range g.Edges {
-		for _, variant := range []string{"direct", "json-clone-before", "json-clone-after"} {
+		for _, variant := range []string{"direct", "json-clone-before", "json-clone-after", "observed-along-the-path"} {
 			n++
-			t := trie.New()
-			for _, op := range g.Nodes[e.Src].Path {
-				trieApply(t, op)
-			}
-			if variant == "json-clone-before" {
-				t2, err := trieClone(t)
-				if err != nil {
-					mm = append(mm, mismatch{ei, variant, "json-error", err.Error(), nil})
-					continue
+			ei, e, variant := ei, e, variant
+			if p, msg := catch(func() {
+				t := trie.New()
+				for _, op := range g.Nodes[e.Src].Path {
+					trieApply(t, op)
+					if variant == "observed-along-the-path" { // observers may cache: every update must invalidate what they cached
+						trieMembers(t)
+					}
 				}
-				t = t2
-			}
-			ret := trieApply(t, trieOp{e.Op, e.Arg})
-			if e.Op == "del" && e.Ret != nil && ret != *e.Ret {
-				mm = append(mm, mismatch{ei, variant, "delete-return", ret, *e.Ret})
-				continue
-			}
-			if variant == "json-clone-after" {
-				t2, err := trieClone(t)
-				if err != nil {
-					mm = append(mm, mismatch{ei, variant, "json-error", err.Error(), nil})
-					continue
+				if variant == "json-clone-before" {
+					t2, err := trieClone(t)
+					if err != nil {
+						mm = append(mm, mismatch{ei, variant, "json-error", err.Error(), nil})
+						return
+					}
+					t = t2
 				}
-				t = t2
-			}
-			if what, got, want := trieCompare(t, &g.Nodes[e.Dst], g.Probes); what != "" {
-				mm = append(mm, mismatch{ei, variant, what, got, want})
+				ret := trieApply(t, trieOp{e.Op, e.Arg})
+				if e.Op == "del" && e.Ret != nil && ret != *e.Ret {
+					mm = append(mm, mismatch{ei, variant, "delete-return", ret, *e.Ret})
+					return
+				}
+				if variant == "json-clone-after" {
+					t2, err := trieClone(t)
+					if err != nil {
+						mm = append(mm, mismatch{ei, variant, "json-error", err.Error(), nil})
+						return
+					}
+					t = t2
+				}
+				if what, got, want := trieCompare(t, &g.Nodes[e.Dst], g.Probes); what != "" {
+					mm = append(mm, mismatch{ei, variant, what, got, want})
+				}
+			}); p {
+				mm = append(mm, mismatch{ei, variant, "panic", msg, nil})
 			}
 		}
 	}
@@ -187,6 +195,8 @@ type trieEvent struct {
 	Ret     bool     `json:"ret"`
 	Members [][]int  `json:"members"`
 	Has     []hasObs `json:"has"`
+	Obs     bool     `json:"obs"`   // false: nothing was observed after this step (no ForEach / Has call was made)
+	Panic   bool     `json:"panic"` // the operation or an observation panicked
 }
 
 func trieDrive(args []string) error {
@@ -256,41 +266,52 @@ func trieDrive(args []string) error {
 		for step := 0; step < nops; step++ {
 			ev := trieEvent{Sid: sid, Step: step}
 			var arg []byte
-			switch x := r.Intn(20); {
-			case x < 9:
-				ev.Op = "add"
-				arg = pick()
-				if r.Intn(40) == 0 {
-					arg = nil // adding the empty sequence changes nothing
+			ev.Members, ev.Has = [][]int{}, []hasObs{}
+			ev.Panic, _ = catch(func() {
+				switch x := r.Intn(20); {
+				case x < 9:
+					ev.Op = "add"
+					arg = pick()
+					if r.Intn(40) == 0 {
+						arg = nil // adding the empty sequence changes nothing
+					}
+					t.Add(arg)
+				case x < 18:
+					ev.Op = "del"
+					arg = pick()
+					ev.Ret = t.Delete(arg)
+				default:
+					ev.Op = "clone"
+					t2, err := trieClone(t)
+					if err != nil {
+						panic(fmt.Sprintf("json round trip: %v", err))
+					}
+					t = t2
 				}
-				t.Add(arg)
-			case x < 18:
-				ev.Op = "del"
-				arg = pick()
-				ev.Ret = t.Delete(arg)
-			default:
-				ev.Op = "clone"
-				t2, err := trieClone(t)
-				if err != nil {
-					return fmt.Errorf("json round trip: %v", err)
+				ev.Arg = ints(arg)
+				if len(arg) > 0 {
+					recent = append(recent, arg)
+					if len(recent) > 12 {
+						recent = recent[1:]
+					}
 				}
-				t = t2
-			}
-			ev.Arg = ints(arg)
-			if len(arg) > 0 {
-				recent = append(recent, arg)
-				if len(recent) > 12 {
-					recent = recent[1:]
+				// in every other session about half of the steps are not observed at all, so that several updates happen
+				// between two ForEach / Has calls (anything cached by an observer must survive unobserved updates)
+				ev.Obs = sid%2 == 0 || r.Intn(2) == 0 || step == nops-1
+				if ev.Obs {
+					ev.Members = trieMembers(t)
+					sort.Slice(ev.Members, func(i, j int) bool { return keyOf(ev.Members[i]) < keyOf(ev.Members[j]) })
+					probes := [][]byte{nil, arg, randStr(true), pick()}
+					if len(arg) > 0 {
+						probes = append(probes, append(append([]byte{}, arg...), alpha[r.Intn(an)]), arg[:len(arg)-1])
+					}
+					for _, p := range probes {
+						ev.Has = append(ev.Has, hasObs{ints(p), t.Has(p)})
+					}
 				}
-			}
-			ev.Members = trieMembers(t)
-			sort.Slice(ev.Members, func(i, j int) bool { return keyOf(ev.Members[i]) < keyOf(ev.Members[j]) })
-			probes := [][]byte{nil, arg, randStr(true), pick()}
-			if len(arg) > 0 {
-				probes = append(probes, append(append([]byte{}, arg...), alpha[r.Intn(an)]), arg[:len(arg)-1])
-			}
-			for _, p := range probes {
-				ev.Has = append(ev.Has, hasObs{ints(p), t.Has(p)})
+			})
+			if ev.Arg == nil {
+				ev.Arg = ints(arg)
 			}
 			tw.emit(ev)
 		}
